@@ -37,10 +37,15 @@ var c12Kinds = []string{
 	"pacc:ledger-unknown", "pacc:sub-unknown", "pacc:virtual-unknown", "prej:unknown", "pacc:ledger-for-pending", "pacc:wrong-type-for-pending", "prej:for-pending",
 	// updates
 	"upd:valid", "upd:fewer-parts", "upd:more-parts", "upd:actor-max", "upd:version-max", "upd:other-channel", "upd:unknown-channel", "upd:garbage-sig", "upd:add-suballoc", "upd:final",
+	"upd:locked-drop-all", "upd:locked-drop-first", "upd:locked-swap", "upd:locked-dup", "upd:virtual-id",
+	// a sub-channel proposal whose opening the sender abandons after the acceptance, followed by the funding update it announced
+	"sprop:abandoned-then-funded", "lprop:participant-empty", "vprop:proposer-empty", "pacc:ledger-for-pending-empty-participant",
 	// update responses
 	"uacc:unknown-version", "uacc:pending-garbage-sig", "urej:unknown-version", "uacc:unknown-channel", "urej:pending", "uacc:pending-twice",
 	// virtual channel funding / settlement proposals
 	"vfund:ok-shape", "vfund:state-3parts", "vfund:indexmap-short", "vfund:indexmap-entry", "vfund:sigs-nil", "vfund:not-virtual", "vfund:state-other-id", "vfund:unknown-channel", "vfund:assets-mismatch", "vfund:twice",
+	"vfund:locked-drop-all", "vfund:locked-drop-first", "vfund:locked-swap", "vfund:locked-dup",
+	"vsettle:locked-drop-all", "vsettle:locked-drop-first", "vsettle:locked-swap",
 	"vsettle:unknown-virtual", "vsettle:state-3parts", "vsettle:sigs-nil", "vsettle:other-id", "vsettle:twice",
 	// sync
 	"sync:nil-state", "sync:current", "sync:unknown-channel", "sync:while-locked", "sync:phase-garbage",
@@ -58,7 +63,7 @@ func genC12(r *kernel.Rand) *kernel.Scenario {
 	c["ctx_ms"] = 15000
 	c["assets"] = int64(1 + r.Weighted([]int{3, 1}))
 	c["r"] = int64(r.Uint64() >> 2)
-	c["virtual"] = int64(r.Intn(2)) // an honest virtual channel A<->B exists
+	c["virtual"] = int64(r.Weighted([]int{4, 4, 2, 1})) // number of honest virtual channels A<->B (sub-allocations locked in A-H and B-H)
 	if c["virtual"] == 0 && r.Bool(0.6) {
 		// without matched virtual-channel proposals nothing is sent under a std
 		// mutex, so the bus may park publishers (a slow link: replies stay in
@@ -118,8 +123,8 @@ func execC12(tt *testing.T, sc *kernel.Scenario, trace bool) *kernel.Result {
 		a := &c12adv{t: t}
 		a.zWire = map[wallet.BackendID]wire.Address{channel.TestBackendID: func() *simwire.Address { x := simwire.NewAddress(); copy(x[:], "stranger-Z"); return x }()}
 		t.w.Bus.Name(a.zWire, "Z")
-		if sc.Cfg("virtual", 0) == 1 {
-			if v, err := t.openVirtual(0, 20, 30); err == nil {
+		for k := int64(0); k < sc.Cfg("virtual", 0); k++ {
+			if v, err := t.openVirtual(int(k), 20+3*k, 30-2*k); err == nil && a.virt == nil {
 				a.virt = v
 			}
 		}
@@ -215,6 +220,7 @@ type c12adv struct {
 	pendingProp    client.ProposalID
 	pendingVersion uint64
 	sentOnce       map[string]wire.Msg
+	abandoned      channel.ID
 }
 
 func (a *c12adv) send(step int, st *kernel.Step) bool {
@@ -225,6 +231,33 @@ func (a *c12adv) send(step int, st *kernel.Step) bool {
 	from, fromAcc := t.A.Wire, t.A.Acc.Addr
 	if fromZ {
 		from, fromAcc = a.zWire, gen.Pool(6)[5].Addr
+	}
+	if kind == "sprop:abandoned-then-funded" {
+		// The counterparty proposes a sub-channel, lets the victim accept and
+		// never sends its signature on the initial state; after the victim has
+		// given up it sends the parent update that would have funded the
+		// sub-channel. The sub-channel's ID follows from the two nonce shares,
+		// both of which the sender knows after the acceptance; the harness reads
+		// it from the victim's persistence record instead of re-deriving it.
+		if fromZ {
+			return false
+		}
+		created := len(t.H.Rec.CreatedList())
+		m1 := a.build("sprop:ok-shape", r, from, fromAcc, false)
+		if m1 == nil || t.w.Bus.Inject(&wire.Envelope{Sender: from, Recipient: t.H.Wire, Msg: m1}, s.Delay(fmt.Sprintf("inject:%d", step), 0, 100*time.Microsecond)) != nil {
+			return false
+		}
+		s.Count("fault.msg.sprop:ok-shape", 1)
+		for i := 0; i < 200 && len(t.H.Rec.CreatedList()) == created; i++ {
+			time.Sleep(100 * time.Millisecond)
+		}
+		l := t.H.Rec.CreatedList()
+		if len(l) == created {
+			return true // the proposal was refused (e.g. the parent was locked): nothing to follow up
+		}
+		a.abandoned = l[len(l)-1]
+		time.Sleep(t.H.CtxTimeout + 2*time.Second) // the victim's opening attempt has timed out by now
+		kind = "sprop:funding-of"
 	}
 	msg := a.build(kind, r, from, fromAcc, fromZ)
 	if msg == nil {
@@ -291,6 +324,46 @@ func (a *c12adv) build(kind string, r *kernel.Rand, from map[wallet.BackendID]wi
 		c.Version++
 		return c
 	}
+	// mutLocked rearranges the sub-allocations that the current state already
+	// holds (what: drop-all, drop-first, swap, dup); funds of dropped entries go
+	// back to the sender's balance so that the sums still match.
+	mutLocked := func(st *channel.State, what string) {
+		n := len(cur.Locked)
+		if n == 0 {
+			return
+		}
+		giveBack := func(sa channel.SubAlloc) {
+			for i := range sa.Bals {
+				if i < len(st.Balances) {
+					st.Balances[i][0].Add(st.Balances[i][0], sa.Bals[i])
+				}
+			}
+		}
+		switch what {
+		case "drop-all":
+			for _, sa := range st.Locked[:n] {
+				giveBack(sa)
+			}
+			st.Locked = append([]channel.SubAlloc{}, st.Locked[n:]...)
+		case "drop-first":
+			giveBack(st.Locked[0])
+			st.Locked = append([]channel.SubAlloc{}, st.Locked[1:]...)
+		case "swap":
+			if n >= 2 {
+				st.Locked[0], st.Locked[n-1] = st.Locked[n-1], st.Locked[0]
+			} else if len(st.Locked) >= 2 {
+				st.Locked[0], st.Locked[1] = st.Locked[1], st.Locked[0]
+			}
+		case "dup":
+			st.Locked = append(st.Locked, st.Locked[0])
+		}
+	}
+	lockedMut := func(kind string) string {
+		if i := strings.Index(kind, ":locked-"); i >= 0 {
+			return kind[i+len(":locked-"):]
+		}
+		return ""
+	}
 	vParams := func(parts int) *channel.Params {
 		accs := gen.Pool(6)
 		ps := []*gen.Acc{accs[0], accs[2], accs[4]}[:parts]
@@ -303,6 +376,32 @@ func (a *c12adv) build(kind string, r *kernel.Rand, from map[wallet.BackendID]wi
 	// ---- ledger proposals ---------------------------------------------------------
 	case "lprop:ok":
 		return &client.LedgerChannelProposalMsg{BaseChannelProposal: base(alloc1(2, 1), 5), Participant: fromAcc, Peers: peers}
+	case "lprop:participant-empty":
+		return &client.LedgerChannelProposalMsg{BaseChannelProposal: base(alloc1(2, 1), 5), Participant: map[wallet.BackendID]wallet.Address{}, Peers: peers}
+	case "upd:virtual-id":
+		if a.virt == nil {
+			return nil
+		}
+		st := lastOf(t.A, a.virt.id)
+		if st == nil {
+			return nil
+		}
+		st.Version++
+		return &client.ChannelUpdateMsg{ChannelUpdate: client.ChannelUpdate{State: st, ActorIdx: 0}, Sig: signA(st)}
+	case "sprop:funding-of":
+		// second half of sprop:abandoned-then-funded: the parent update that funds sub-channel a.abandoned
+		al := alloc1(2, nA)
+		st := next()
+		for i := range st.Balances {
+			for j := range st.Balances[i] {
+				if st.Balances[i][j].Cmp(al.Balances[i][j]) < 0 {
+					return nil
+				}
+				st.Balances[i][j].Sub(st.Balances[i][j], al.Balances[i][j])
+			}
+		}
+		st.Locked = append(st.Locked, *channel.NewSubAlloc(a.abandoned, al.Sum(), nil))
+		return &client.ChannelUpdateMsg{ChannelUpdate: client.ChannelUpdate{State: st, ActorIdx: 0}, Sig: signA(st)}
 	case "lprop:one-part":
 		return &client.LedgerChannelProposalMsg{BaseChannelProposal: base(alloc1(1, 1), 5), Participant: fromAcc, Peers: peers}
 	case "lprop:zero-challenge":
@@ -345,7 +444,7 @@ func (a *c12adv) build(kind string, r *kernel.Rand, from map[wallet.BackendID]wi
 		}
 		return &client.SubChannelProposalMsg{BaseChannelProposal: base(al, 5), Parent: parent}
 	// ---- virtual channel proposals -------------------------------------------------
-	case "vprop:ok-shape", "vprop:no-parents", "vprop:one-parent", "vprop:indexmaps-missing", "vprop:indexmap-long", "vprop:indexmap-entry", "vprop:bals-3parts", "vprop:agreement-dims":
+	case "vprop:proposer-empty", "vprop:ok-shape", "vprop:no-parents", "vprop:one-parent", "vprop:indexmaps-missing", "vprop:indexmap-long", "vprop:indexmap-entry", "vprop:bals-3parts", "vprop:agreement-dims":
 		al := alloc1(2, nA)
 		parents := []channel.ID{gen.SubID(5), hch.ID()}
 		imaps := [][]channel.Index{{0, 1}, {0, 1}}
@@ -368,6 +467,9 @@ func (a *c12adv) build(kind string, r *kernel.Rand, from map[wallet.BackendID]wi
 		case "vprop:agreement-dims":
 			b.FundingAgreement = alloc1(3, nA).Balances
 		}
+		if kind == "vprop:proposer-empty" {
+			fromAcc = map[wallet.BackendID]wallet.Address{}
+		}
 		return &client.VirtualChannelProposalMsg{BaseChannelProposal: b, Proposer: fromAcc, Peers: peers, Parents: parents, IndexMaps: imaps}
 	// ---- proposal responses ---------------------------------------------------------
 	case "pacc:ledger-unknown":
@@ -380,14 +482,18 @@ func (a *c12adv) build(kind string, r *kernel.Rand, from map[wallet.BackendID]wi
 		return &client.ChannelProposalRejMsg{ProposalID: pid(r), Reason: "no"}
 	case "pacc:ledger-for-pending":
 		return &client.LedgerChannelProposalAccMsg{BaseChannelProposalAcc: client.BaseChannelProposalAcc{ProposalID: a.pendingProp}, Participant: fromAcc}
+	case "pacc:ledger-for-pending-empty-participant":
+		return &client.LedgerChannelProposalAccMsg{BaseChannelProposalAcc: client.BaseChannelProposalAcc{ProposalID: a.pendingProp}, Participant: map[wallet.BackendID]wallet.Address{}}
 	case "pacc:wrong-type-for-pending":
 		return &client.SubChannelProposalAccMsg{BaseChannelProposalAcc: client.BaseChannelProposalAcc{ProposalID: a.pendingProp}}
 	case "prej:for-pending":
 		return &client.ChannelProposalRejMsg{ProposalID: a.pendingProp, Reason: strings.Repeat("x", r.Range(0, 300))}
 	// ---- updates --------------------------------------------------------------------
-	case "upd:valid", "upd:fewer-parts", "upd:more-parts", "upd:actor-max", "upd:version-max", "upd:garbage-sig", "upd:add-suballoc", "upd:final":
+	case "upd:valid", "upd:fewer-parts", "upd:more-parts", "upd:actor-max", "upd:version-max", "upd:garbage-sig", "upd:add-suballoc", "upd:final",
+		"upd:locked-drop-all", "upd:locked-drop-first", "upd:locked-swap", "upd:locked-dup":
 		st := next()
 		actor := channel.Index(0)
+		mutLocked(st, lockedMut(kind))
 		switch kind {
 		case "upd:fewer-parts":
 			for i := range st.Balances {
@@ -440,7 +546,8 @@ func (a *c12adv) build(kind string, r *kernel.Rand, from map[wallet.BackendID]wi
 	case "urej:pending":
 		return &client.ChannelUpdateRejMsg{ChannelID: hch.ID(), Version: cur.Version + 1, Reason: "no"}
 	// ---- virtual channel funding ---------------------------------------------------------
-	case "vfund:ok-shape", "vfund:state-3parts", "vfund:indexmap-short", "vfund:indexmap-entry", "vfund:sigs-nil", "vfund:not-virtual", "vfund:state-other-id", "vfund:unknown-channel", "vfund:assets-mismatch", "vfund:twice":
+	case "vfund:ok-shape", "vfund:state-3parts", "vfund:indexmap-short", "vfund:indexmap-entry", "vfund:sigs-nil", "vfund:not-virtual", "vfund:state-other-id", "vfund:unknown-channel", "vfund:assets-mismatch", "vfund:twice",
+		"vfund:locked-drop-all", "vfund:locked-drop-first", "vfund:locked-swap", "vfund:locked-dup":
 		parts := 2
 		if kind == "vfund:state-3parts" {
 			parts = 3
@@ -471,6 +578,7 @@ func (a *c12adv) build(kind string, r *kernel.Rand, from map[wallet.BackendID]wi
 			}
 		}
 		st.Locked = append(st.Locked, channel.SubAlloc{ID: vp.ID(), Bals: tot, IndexMap: imap})
+		mutLocked(st, lockedMut(kind))
 		if kind == "vfund:unknown-channel" {
 			st.ID = gen.SubID(r.Uint64())
 		}
@@ -485,7 +593,8 @@ func (a *c12adv) build(kind string, r *kernel.Rand, from map[wallet.BackendID]wi
 			ChannelUpdateMsg: client.ChannelUpdateMsg{ChannelUpdate: client.ChannelUpdate{State: st, ActorIdx: 0}, Sig: signA(st)},
 			Initial:          channel.SignedState{Params: vp, State: vs, Sigs: sigs}, IndexMap: imap}
 	// ---- virtual channel settlement ---------------------------------------------------------
-	case "vsettle:unknown-virtual", "vsettle:state-3parts", "vsettle:sigs-nil", "vsettle:other-id", "vsettle:twice":
+	case "vsettle:unknown-virtual", "vsettle:state-3parts", "vsettle:sigs-nil", "vsettle:other-id", "vsettle:twice",
+		"vsettle:locked-drop-all", "vsettle:locked-drop-first", "vsettle:locked-swap":
 		parts := 2
 		if kind == "vsettle:state-3parts" {
 			parts = 3
@@ -511,6 +620,13 @@ func (a *c12adv) build(kind string, r *kernel.Rand, from map[wallet.BackendID]wi
 			for i := range la.Bals {
 				st.Balances[i][0].Add(st.Balances[i][0], la.Bals[i])
 			}
+		}
+		if m := lockedMut(kind); m != "" {
+			// applied to what is left after the settled entry was removed
+			curSaved := cur
+			cur = st
+			mutLocked(st, m)
+			cur = curSaved
 		}
 		sigs := make([]wallet.Sig, parts)
 		if kind != "vsettle:sigs-nil" {
